@@ -22,12 +22,15 @@ RULE = (
     "a tail longer than the election timeout, per-link asymmetric, per-message-type holds/drops; iid loss up to 30%), "
     "election timeout / heartbeat from a grid, 0-3 partition windows (symmetric or one-way, arbitrary groups) and 0-3 "
     "crash/restart windows from happysimulator.faults, a client submitting unique commands at generated instants to every "
-    "/ one node that currently claims leadership (stale leaders included) or to an arbitrary node. duel: same, but two "
+    "/ one node that currently claims leadership (stale leaders included) or to an arbitrary node; 30% of the cases have a "
+    "bursty client (up to 30 commands per instant: long logs, long stale suffixes, far-behind followers). duel: same, but two "
     "chosen nodes time out almost together and RequestVote / AppendEntries on chosen links are held for a generated time "
     "(aims at votes racing heartbeats and at stale followers with longer logs). staleack / fig8: randomised scripted "
     "adversaries (roles permuted over 5 nodes, every instant jittered and scaled, free seeds) - old-term acknowledgements "
     "held until their addressee leads again; an old-term entry reaching a majority only under a later leader while a third "
-    "node holds an unreplicated entry of a term in between. calm: loss-free network with all delays "
+    "node holds an unreplicated entry of a term in between; catchup (3 nodes): a deposed leader with a long committed prefix "
+    "and a stale suffix is caught up, after delayed rejections and lost retries, from far below its divergence point by a "
+    "leader whose commit index lies beyond it. calm: loss-free network with all delays "
     "< 1/10 of the minimum election timeout and heartbeat <= 1/3 of it; once one leader is established (all nodes in its "
     "term and naming it, continuously for 2 max-delays) K commands are submitted to it; every node must have applied "
     "exactly those K commands in submission order and every future must be resolved within (K+3)*(heartbeat + 2*max delay) "
@@ -101,7 +104,14 @@ def _faults(rng: random.Random, names: list[str], dur: float, et: float) -> list
 def _ticks(rng: random.Random, dur: float, et_max: float) -> list[dict]:
     m = rng.choice([4, 10, 25, 60])
     ts = sorted(_r(rng.uniform(min(et_max * 1.2, dur * 0.3), dur * 0.97)) for _ in range(m))
-    return [{"t": t, "mode": rng.choice(["all", "all", "one", "any"]), "pick": rng.randrange(60)} for t in ts]
+    ticks = [{"t": t, "mode": rng.choice(["all", "all", "one", "any"]), "pick": rng.randrange(60)} for t in ts]
+    if rng.random() < 0.3:
+        # bursty client: long logs, long uncommitted suffixes on isolated / stale leaders, far-behind followers
+        for tk in ticks:
+            c = rng.choice([1, 1, 4, 12, 30])
+            if c > 1:
+                tk["count"] = c
+    return ticks
 
 
 def gen_chaos(rng: random.Random, tier: str) -> dict:
@@ -291,6 +301,82 @@ def gen_fig8(rng: random.Random, tier: str) -> dict:
     }
 
 
+def gen_catchup(rng: random.Random, tier: str) -> dict:
+    """Scripted adversary, randomised: a far-behind follower with a conflicting suffix is caught up from
+    a point far *below* the place where its log really diverges, by a leader whose commit point lies beyond it.
+
+    Roles A, B, C (random permutation of 3 nodes); election timeout E is long against the heartbeat h.
+    A leads first and commits a long prefix (P entries, burst submit); A is cut off and, still claiming
+    leadership, accepts a burst of commands that never commit (stale suffix); B is forced to win, commits
+    d entries at the same indices; B crashes briefly (its heartbeat timer is lost) so C takes over with
+    next_index[A] beyond A's log; the partition heals but A's replies to C take D seconds, so D/h rejections of
+    the same heartbeat are in flight; C->A is then cut while they arrive (each one backs next_index[A] up by one,
+    the retries are lost); when C->A heals the first AppendEntries A sees starts near the beginning of the log and
+    carries a commit index beyond A's divergence point.  Legal for a correct implementation (that message carries
+    every later entry, so the conflict is found and the suffix replaced before anything is committed).
+    """
+    perm = ["n0", "n1", "n2"]
+    rng.shuffle(perm)
+    A, B, C = perm
+    s = rng.choice([0.5, 1.0])
+    E = rng.choice([4.5, 5.0])
+    h = rng.choice([0.08, 0.1])
+    D = rng.choice([2.6, 3.0, 3.3])
+
+    def t(x):
+        return _r((x + rng.uniform(-0.02, 0.02)) * s)
+
+    d0 = _r(rng.uniform(0.0005, 0.004) * s)
+    n_base = rng.choice([22, 25, 30, 45])
+    n_stale = rng.choice([1, 2, 3, 6])
+    n_new = rng.choice([3, 3, 5])
+    heal = 7.0 * E
+    cut0 = heal + D - 0.05
+    cut1 = heal + 2 * D + 0.5
+    faults = [
+        {"kind": "crash", "node": B, "at": t(0.9 * E), "restart_at": t(1.25 * E)},
+        {"kind": "crash", "node": C, "at": t(0.9 * E), "restart_at": t(1.25 * E)},
+        {"kind": "partition", "a": [A], "b": [B, C], "start": t(3.0 * E), "end": t(heal), "asym": False},
+        {"kind": "crash", "node": C, "at": t(3.9 * E), "restart_at": t(4.2 * E)},
+        {"kind": "crash", "node": B, "at": t(5.6 * E), "restart_at": t(5.6 * E + 0.45)},
+        {"kind": "partition", "a": [C], "b": [A], "start": t(cut0), "end": t(cut1), "asym": True},
+    ]
+    ticks = [
+        {"t": t(2.6 * E), "mode": "node", "node": A, "pick": 0, "count": n_base},
+        {"t": t(3.0 * E + 0.3), "mode": "node", "node": A, "pick": 0, "count": n_stale},
+        {"t": t(5.4 * E), "mode": "node", "node": B, "pick": 0, "count": n_new},
+        {"t": t(cut1 + 1.5), "mode": "all", "pick": 0},
+    ]
+    return {
+        "n": 3,
+        "et": [_r(E * s), _r(1.1 * E * s)],
+        "hb": _r(h * s),
+        "seed": rng.randrange(1 << 30),
+        "duration": _r((cut1 + 2.5) * s),
+        "script": {
+            "seed": rng.randrange(1 << 30),
+            "family": "fixed",
+            "base": [d0, d0],
+            "loss": 0.0,
+            "rules": [
+                {
+                    "src": A,
+                    "dst": C,
+                    "type": "RaftAppendEntriesResponse",
+                    "nth": None,
+                    "after": t(heal - 0.1),
+                    "before": t(cut1),
+                    "delay": _r(D * s),
+                    "drop": False,
+                }
+            ],
+        },
+        "faults": faults,
+        "ticks": ticks,
+        "roles": {"A": A, "B": B, "C": C},
+    }
+
+
 def gen_calm(rng: random.Random, tier: str) -> dict:
     n = rng.choice([3, 4, 5])
     names = [f"n{i}" for i in range(n)]
@@ -342,7 +428,12 @@ def run_chaos(case: dict) -> Result:
             for i in targets:
                 if mon.crashed[i]:
                     continue  # a client cannot reach a crashed node
-                mon.submit(i, f"c{k}@{mon.names[i]}")
+                cnt = tk.get("count", 1)
+                if cnt == 1:
+                    mon.submit(i, f"c{k}@{mon.names[i]}")
+                else:  # burst: many commands in one instant (long logs, long stale suffixes)
+                    for j in range(cnt):
+                        mon.submit(i, f"c{k}.{j}@{mon.names[i]}")
             return None
 
         client = M.Client("client", act)
@@ -476,8 +567,9 @@ FAMILIES = {
     "calm": Family("calm", gen_calm, run_calm, case_timeout=60.0),
     "staleack": Family("staleack", gen_staleack, run_chaos, case_timeout=90.0),
     "fig8": Family("fig8", gen_fig8, run_chaos, case_timeout=90.0),
+    "catchup": Family("catchup", gen_catchup, run_chaos, case_timeout=90.0),
 }
 BUDGET = {
-    "quick": {"chaos": 2400, "duel": 1200, "calm": 400, "staleack": 200, "fig8": 200},
-    "thorough": {"chaos": 150000, "duel": 80000, "calm": 20000, "staleack": 6000, "fig8": 6000},
+    "quick": {"chaos": 2400, "duel": 1200, "calm": 400, "staleack": 200, "fig8": 200, "catchup": 150},
+    "thorough": {"chaos": 150000, "duel": 80000, "calm": 20000, "staleack": 6000, "fig8": 6000, "catchup": 4000},
 }
